@@ -18,9 +18,9 @@ HARN_SRC := $(wildcard engine/*.cpp sim/*.cpp model/*.cpp props/*.cpp)
 HDRS := $(wildcard engine/*.h sim/*.h model/*.h props/*.h fuzz/*.h)
 
 DEF_n1 := -DVF_BUILD=1
-DEF_n2 := -DVF_BUILD=2 -DCO_SSDO_N=2 -DCO_CSDO_N=2
+DEF_n2 := -DVF_BUILD=2 -DCO_SSDO_N=2 -DCO_CSDO_N=2 -DCO_TPDO_N=6 -DCO_RPDO_N=5 -DCO_EMCY_N=41
 DEF_f1 := -DVF_BUILD=1 -DVF_FUZZ
-DEF_f2 := -DVF_BUILD=2 -DCO_SSDO_N=2 -DCO_CSDO_N=2 -DVF_FUZZ
+DEF_f2 := -DVF_BUILD=2 -DCO_SSDO_N=2 -DCO_CSDO_N=2 -DCO_TPDO_N=6 -DCO_RPDO_N=5 -DCO_EMCY_N=41 -DVF_FUZZ
 INS_n1 := -fsanitize-coverage=trace-pc-guard
 INS_n2 := -fsanitize-coverage=trace-pc-guard
 INS_f1 := -fsanitize=fuzzer-no-link
